@@ -83,12 +83,19 @@ func multiplyUInt64(a, b uint64) UInt128Struct {
 	return result
 }
 
+func absUint64(v int64) uint64 {
+	if v < 0 {
+		return uint64(-v)
+	}
+	return uint64(v)
+}
+
 // productsAreEqual returns true iff a*b == c*d (exactly) using 128-bit intermediate
 func productsAreEqual(a, b, c, d int64) bool {
-	absA := uint64(math.Abs(float64(a)))
-	absB := uint64(math.Abs(float64(b)))
-	absC := uint64(math.Abs(float64(c)))
-	absD := uint64(math.Abs(float64(d)))
+	absA := absUint64(a)
+	absB := absUint64(b)
+	absC := absUint64(c)
+	absD := absUint64(d)
 
 	mulAB := multiplyUInt64(absA, absB)
 	mulCD := multiplyUInt64(absC, absD)
